@@ -567,6 +567,26 @@ def _tag_evidence(prog, m, idx, bb):
                         _elem_index_of(m, a0[2][0]) == idx:
                     saw_eq = True
                     continue
+                # `ops.get(j).map_or(false, |op| op.tag() == DiffTag::Equal)` / `.is_some_and(..)`
+                cp = cal.get("path", "")
+                if (cp.endswith("Option::<T>::map_or") or cp.endswith("Option::<T>::is_some_and")) and payload["args"] and \
+                        _elem_index_of(m, m.resolve_operand(payload["args"][0])) == idx:
+                    dflt_ok = True
+                    if cp.endswith("map_or"):
+                        d0 = payload["args"][1]
+                        dflt_ok = d0.get("k") == "const" and d0.get("val") == "false"
+                    clos_ok = False
+                    for g in prog.fn_list:
+                        if g.kind == "Closure" and g.mir and g.path.startswith(m.fn.path + "::{closure") and \
+                                abs((g.line or 0) - payload["line"]) <= 4:
+                            tags = [t3 for _, t3 in g.mir.calls() if (g.mir.callee(t3) or {}).get("path") == "types::DiffOp::tag"]
+                            eqs = [t3 for _, t3 in g.mir.calls() if "PartialEq" in (g.mir.callee(t3) or {}).get("path", "") and
+                                   _re.search(r"==\s*(\w+::)*DiffTag::Equal\b|DiffTag::Equal\s*==", t3.get("src", "") or "")]
+                            if tags and eqs:
+                                clos_ok = True
+                    if dflt_ok and clos_ok:
+                        saw_eq = True
+                        continue
                 good = False
         if good and saw_eq:
             return True
